@@ -110,6 +110,7 @@ let run_conc toks =
       let fetchers k m = List.map (fun _ -> newc (OFetch (n_of_int k))) (range 0 m) in
       (* the schedule is built as a function of the initial state, after all callers are known *)
       let all_tasks _ = true in
+      let early : bool option ref = ref None in
       (* herd: first caller runs until parked, its task enters the loader (TLoad), the others arrive *)
       let herd cf s cs =
         match cs with
@@ -176,6 +177,17 @@ let run_conc toks =
                 let s = (match stepc cf s cb with Some s' -> s' | None -> s) in
                 let s = settle cf s all_tasks [ca] in
                 settle cf s all_tasks [cb])
+        | "tpause" ->
+            let k, j = a 0, a 1 in
+            let ca = newc (OFetch (n_of_int k)) in
+            let cb = newc (OFetch (n_of_int k)) in
+            ([k], fun s ->
+                let s = run_caller cf s ca in
+                let s = (match stept cf s 0 with Some s' -> s' | None -> s) in          (* loader ran *)
+                let s = if j >= 3 then (match stept cf s 0 with Some s' -> s' | None -> s) else s in  (* map write *)
+                let s = run_caller cf s cb in
+                early := Some ((s.callers (nat_of_int cb)).c_pc = CIdle);
+                settle cf s all_tasks [ca; cb])
         | "stress" ->
             let k0, r, th = a 0, a 1, a 2 in
             let rounds = List.map (fun i -> (k0 + i, fetchers (k0 + i) th)) (range 0 r) in
@@ -195,7 +207,9 @@ let run_conc toks =
             let vs = List.sort_uniq compare (List.filter_map (fun x -> if int_of_n x.r_key = k then Some (int_of_n x.r_val) else None) s.rets) in
             List.length vs > 1) keys) in
         Printf.sprintf "stress rounds %d dup %d split %d hang 0 panic 0" r dup split
-      end else summary s keys
+      end else (match !early with
+          | Some b -> Printf.sprintf "%s | early %d" (summary s keys) (if b then 1 else 0)
+          | None -> summary s keys)
   | _ -> failwith "bad conc case"
 
 let run (toks : string list) : string =
